@@ -244,6 +244,19 @@ def run(ctx):
                 text = sx.unS(c.split(' ')[3].rstrip(')')).decode('utf-8', 'replace')
                 ctx.violation('parser built a different tree (or accepted/rejected wrongly): text=%r got=%s want=%s' % (text[:300], res[:300], expect[cid][:300]),
                               dict(kind='case', case=c, go=res, expected=expect[cid], text=text))
+    # correspondence: the Coq parser model (specification tokenizer + Impl/Parser.v) on the same texts
+    mo = lib.run_model(cases, 'parse', ctx.workdir)
+    mism = 0
+    for c in cases:
+        cid = lib.case_id(c)
+        g, m = lib.canon_str(go.get(cid, '(missing)')), lib.canon_str(mo.get(cid, '(missing)'))
+        if g != m:
+            mism += 1
+            if mism <= 6:
+                text = sx.unS(c.split(' ')[3].rstrip(')')).decode('utf-8', 'replace')
+                ctx.violation('Go parser and the Coq parser model disagree: text=%r go=%s model=%s' % (text[:300], g[:300], m[:300]),
+                              dict(kind='case', case=c, go=g, model=m, text=text))
+    ctx.oblige('correspondence: cedar-go parser = Impl/Tokenizer + Impl/Parser model on %d texts (trees and rejections)' % len(cases), 'correspondence', mism == 0)
     ctx.oblige('direct oracle: parse(reference rendering) = the rendered AST on %d texts, %d rejects' % (nrej0, len(REJECT)), 'oracle', bad == 0)
     for c in cases[:3]:
         ctx.sample(dict(text=sx.unS(c.split(' ')[3].rstrip(')')).decode('utf-8', 'replace')[:300], go=(go.get(lib.case_id(c)) or '')[:300]))
